@@ -14,6 +14,7 @@ package format
 //@   safety on
 //@   nopanic
 //@   opaque getStyle, doFormat
+//@   replay format_naming
 //@   let iGo = ret(strings.Index, 0, 1)
 //@   let iDe = ret(strings.Index, 0, 2)
 //@   let sf = arg(doFormat, 0)
